@@ -6,6 +6,3 @@ export VERIF_ROOT="${VERIF_ROOT:-$(cd "$BIN_DIR/.." && pwd)}"
 export CARGO_TARGET_DIR="${VERIF_TARGET_DIR:-$VERIF_ROOT/target}"
 export CARGO_TERM_COLOR=never
 HARNESS_DIR="$VERIF_ROOT/harness"
-# throttle while many agents share the machine (integrator: do not merge)
-export CARGO_BUILD_JOBS="${CARGO_BUILD_JOBS:-5}"
-export VERIF_JOBS="${VERIF_JOBS:-6}"
